@@ -139,6 +139,9 @@ func ensureGlobals(scope *slip.Scope) {
 	if slip.FindPackage("c09-pkg") == nil {
 		ev.MustEval(scope, `(make-package 'c09-pkg :use '(common-lisp))`)
 	}
+	if slip.FindPackage("c09-nouse") == nil {
+		ev.MustEval(scope, `(make-package 'c09-nouse :use '())`)
+	}
 	if slip.FindFunc("c09-fn") == nil {
 		ev.MustEval(scope, `(defun c09-fn (x) x)`)
 	}
